@@ -418,6 +418,27 @@ def replay(spec, path, out=sys.stdout):
     except runner.BuildError as e:
         print('ERROR: build failed: ' + str(e), file=out)
         return 2
+    if isinstance(j, list):
+        # a corpus file (list of regression cases): run each case's predicates and the correspondence
+        bad = False
+        for k, cj in enumerate(j):
+            c = Case.from_json(cj) if hasattr(Case, 'from_json') else Case(Prog.from_json(cj['prog']), [(p[0], p[1]) for p in cj.get('preds', [])], cj.get('tag', 'corpus'))
+            c.cid = 0
+            outs, _ = exec_cases([c])
+            for pf in ('debug', 'release'):
+                vals = outs[pf][0][0]
+                for pr in c.preds:
+                    msg = eval_pred(pr, vals)
+                    print('[%s] case %d %s -> %s' % (pf, k, pr[0], msg or 'holds'), file=out)
+                    bad = bad or bool(msg)
+            res, errs, _ = coqrun.evaluate(pid + '_replay', [(0, c.prog, outs['debug'][0][0], outs['debug'][0][1])])
+            st = res.get(0, (9,))[0]
+            print('case %d model vs implementation: %s' % (k, {0: 'agree', 1: 'DIFFER', 2: 'out of range'}.get(st, 'error')), file=out)
+            bad = bad or st == 1
+        if bad:
+            print('VIOLATION property=%s replay=%s' % (pid, path), file=out)
+            return 1
+        return 0
     if j.get('kind') == 'predicate':
         prog = Prog.from_json(j['program'])
         c = Case(prog, [(j['predicate'][0], j['predicate'][1])], 'replay')
